@@ -188,11 +188,39 @@ fn main() {
             break;
         }
     }
+    // The deadline of the multi-peer endpoint (`Net::needs_tick`, anchored in net.rs): in every
+    // reachable state of a real Net with two or three addresses it must be the earliest deadline
+    // of the per-address reference connections (whose own deadlines the invariant above covers),
+    // also while a connection request is left undecided and while peers come and go.
+    if run.num_violations() == 0 {
+        use vp_net::netmodel::NCfg;
+        let nbase = NCfg { accepting: true, addrs: 2, remote_sends: 1, net_sends: 1, drops: 0, advances: 1, garbage: 0, net_connects: 0, disconnects: 0, cap: 3, start_peer_id: 0, defer: false, wraps: 0, send_faults: false };
+        let ncfgs = match run.tier {
+            Tier::Quick => vec![
+                NCfg { defer: true, addrs: 2, remote_sends: 0, net_sends: 1, advances: 2, ..nbase.clone() },
+                NCfg { ..nbase.clone() },
+            ],
+            Tier::Thorough => vec![
+                NCfg { defer: true, addrs: 3, remote_sends: 0, net_sends: 1, advances: 2, ..nbase.clone() },
+                NCfg { defer: true, addrs: 2, remote_sends: 1, net_sends: 1, advances: 2, disconnects: 1, ..nbase.clone() },
+                NCfg { addrs: 2, remote_sends: 1, net_sends: 1, drops: 1, advances: 2, ..nbase.clone() },
+            ],
+        };
+        for cfg in ncfgs {
+            let o = vp_net::explore_net_mode(cfg, &run, run.tier == Tier::Thorough);
+            run.class(&format!("cfg:net:{}", o.label), || json!({"states": o.states}));
+            let stop = o.violated;
+            outcomes.push(o);
+            if stop {
+                break;
+            }
+        }
+    }
     vp_net::record(&run, &outcomes);
     run.add_evals(outcomes.iter().map(|o| o.transitions).sum());
     run.assume("fair suffix = every in-flight datagram delivered once per round, both sides tick when their reported deadline has passed; bound 24 rounds / 12 s simulated");
     run.finish(
-        "explicit-state exploration of two real endpoints; on every unique state the deadline invariant is checked and the fair suffix is executed on the real objects until the goal (ready, all vital chunks delivered and acked, nothing queued), including configurations that start after 1022/1023 chunks each way so that the 10-bit sequence numbers come round while chunks and acknowledgements are in flight; plus a sweep over every payload length 0..1391 and boundary pairs with loss + resend under a wall-clock watchdog",
+        "explicit-state exploration of two real endpoints; on every unique state the deadline invariant is checked and the fair suffix is executed on the real objects until the goal (ready, all vital chunks delivered and acked, nothing queued), including configurations that start after 1022/1023 chunks each way so that the 10-bit sequence numbers come round while chunks and acknowledgements are in flight; plus a sweep over every payload length 0..1391 and boundary pairs with loss + resend under a wall-clock watchdog; plus the multi-peer endpoint: in every reachable state of a real Net (two or three addresses, undecided connection requests, disconnects) Net::needs_tick equals the earliest deadline of the per-address reference connections",
         true,
     );
 }
